@@ -401,7 +401,7 @@ def explorers(tier, seed):
     c2 += [(LAYOUT4, 4, 40, 0, None), (LAYOUT5, 5, 40, 0, None)]
     c3 = []
     grid = [dict(max_clusters=mc, min_samples_leaf=ml, min_samples_split=max(2, 2 * ml), max_features=mf, max_leaves=mlv, max_depth=md)
-            for mc in (2, 3, 4, 5) for ml in (1, 2) for mf in (None, 1) for mlv in (None, 3) for md in (None, 2)]
+            for mc in (2, 3, 4, 5, 1) for ml in (1, 2) for mf in (None, 1) for mlv in (None, 3) for md in (None, 2)]
     datas = list(row_multisets(4, 1)) + list(row_multisets(5, 1)) + list(row_multisets(4, 2))[:: (2 if thorough else 9)] + \
         [("generic", 6, 1), ("generic", 6, 2), ("generic", 7, 2)]
     for spec in datas:
